@@ -107,34 +107,7 @@ Proof.
   apply clean_flat_map. intros c _. apply clean_esc_char.
 Qed.
 
-(* the identifiers of an expression / statement header (what is PRINTED: not the nested blocks) *)
-Fixpoint expr_names (e : expr) : list ident :=
-  match e with
-  | EList es | ESet es => flat_map expr_names es
-  | EListComp el v _ value _ | ESetComp el v _ value _ => expr_names el ++ [v] ++ expr_names value
-  | ECapture name _ _ _ _ => [name]
-  | EUnscoped name _ => [name]
-  | EScoped scope name _ => expr_names scope ++ [name]
-  | ECall f args => f :: flat_map expr_names args
-  | _ => []
-  end.
-Definition variable_names (v : variable) : list ident :=
-  match v with VarU name _ => [name] | VarS scope name _ => expr_names scope ++ [name] end.
-Definition attr_names (a : attr) : list ident := match a with Attr name value => name :: expr_names value end.
-Definition cond_names (c : cond) : list ident := match c with CSome e _ | CNone e _ | CBool e _ => expr_names e end.
-Definition stmt_names (s : stmt) : list ident :=
-  match s with
-  | SLet v e _ | SVar v e _ | SSet v e _ => variable_names v ++ expr_names e
-  | SNode v _ _ => variable_names v
-  | SAttrNode n attrs _ => expr_names n ++ flat_map attr_names attrs
-  | SEdge a b _ => expr_names a ++ expr_names b
-  | SAttrEdge a b attrs _ => expr_names a ++ expr_names b ++ flat_map attr_names attrs
-  | SScan v _ _ => expr_names v
-  | SPrint vs _ => flat_map expr_names vs
-  | SIf arms _ => flat_map (fun arm : list cond * list stmt * loc => flat_map cond_names (fst (fst arm))) arms
-  | SFor v _ e _ _ => v :: expr_names e
-  end.
-
+(* `expr_names` .. `stmt_names` (Model/AstDisplay.v): the identifiers printed in an expression / statement header *)
 Definition names_clean (l : list ident) : Prop := forall x, In x l -> clean x.
 Lemma names_clean_app a b : names_clean (a ++ b) -> names_clean a /\ names_clean b.
 Proof. intros H. split; intros x Hx; apply H, in_or_app; [left|right]; exact Hx. Qed.
@@ -142,6 +115,13 @@ Lemma names_clean_cons x a : names_clean (x :: a) -> clean x /\ names_clean a.
 Proof. intros H. split; [apply H; left; reflexivity|intros y Hy; apply H; right; exact Hy]. Qed.
 Lemma names_clean_flat_map {A} (f : A -> list ident) l : names_clean (flat_map f l) -> forall x, In x l -> names_clean (f x).
 Proof. intros H x Hx y Hy. apply H, in_flat_map. exists x. split; assumption. Qed.
+
+Lemma clean_strb_spec t : clean_strb t = true <-> clean t.
+Proof.
+  unfold clean_strb, clean. rewrite forallb_forall, Forall_forall. split; intros H x Hx; specialize (H x Hx); [apply N.leb_le|apply N.leb_le]; exact H.
+Qed.
+Lemma stmt_names_cleanb_spec s : stmt_names_cleanb s = true -> names_clean (stmt_names s).
+Proof. unfold stmt_names_cleanb. rewrite forallb_forall. intros H x Hx. apply clean_strb_spec, H, Hx. Qed.
 
 Lemma clean_display_expr E : forall e, names_clean (expr_names e) -> clean (display_expr E e).
 Proof.
